@@ -5,8 +5,12 @@ import re
 import subprocess
 import time
 
+import threading
+
 import extract
 import gate
+
+EXTRACT_LOCK = threading.Lock()
 
 VERUS = os.environ.get('VERUS_BIN', 'verus')
 
@@ -153,8 +157,9 @@ def build_and_run(unit, workdir, vacuity=False, rlimit=None):
     out = {'unit': unit, 'vacuity': vacuity, 'status': 'ok', 'reason': None}
     t0 = time.time()
     try:
-        extract.SrcFile.cache.clear()
-        meta = extract.build_unit(unit, workdir, vacuity=vacuity)
+        with EXTRACT_LOCK:
+            extract.SrcFile.cache.clear()
+            meta = extract.build_unit(unit, workdir, vacuity=vacuity)
     except extract.ExtractError as e:
         out.update(status='undecided', reason='extract: %s' % e)
         return out
